@@ -43,6 +43,8 @@ type I interface{ IM(x int) int }
 
 type N int
 
+func (n N) NM() int { return int(n) }
+
 var V int
 var FV = F
 
@@ -75,7 +77,111 @@ type J interface{ lib.I }
 func NewT() lib.T           { return lib.T{} }
 func NewI() lib.I           { return lib.T{} }
 func NewBox() *lib.Box[int] { return &lib.Box[int]{} }
+
+// second-layer material for the alias chains (mid2, mid3)
+type AP = *lib.T
+type AS = []lib.N
+type GA[P any] = lib.Box[P]
+
+var FV2 = lib.FV
 `
+
+// c8Mid2Src / c8Mid3Src: aliases of aliases. A package that names lib's types only through mid2 or mid3
+// reaches them through a chain of two or three aliases declared in other packages.
+const c8Mid2Src = `package mid2
+
+import "c08/mid"
+
+type A2 = mid.A
+type AN2 = mid.AN
+type AI2 = mid.AI
+type AP2 = mid.AP
+type AS2 = mid.AS
+type PA2 = *mid.A
+type GA2[P any] = mid.GA[P]
+type GAi2 = mid.GA[int]
+
+type E2 struct{ mid.A }
+
+func NewN() AN2 { return 0 }
+`
+
+const c8Mid3Src = `package mid3
+
+import "c08/mid2"
+
+type A3 = mid2.A2
+type AN3 = mid2.AN2
+type AI3 = mid2.AI2
+`
+
+const c8StdMid2Src = `package stdmid2
+
+import "c08/stdmid"
+
+type SS2 = stdmid.SS
+`
+
+// c8AliasChainClients: the family "a symbol reached through chains of 2 and 3 aliases across packages":
+// {chain length 2, 3} x {non-struct type converted, struct type in a composite literal, struct type
+// converted} x {type's package imported or not} x {a method/field of the result used or not}, plus the
+// edge forms (parenthesised, self-assignment, declaration only, dot import, interface alias, alias of a
+// pointer / slice type of the named type, generic aliases, local alias on top of a foreign one, embedding
+// through an alias, value obtained without naming the type, re-exported function-typed variable).
+func c8AliasChainClients() []c8Client {
+	var out []c8Client
+	for k := 2; k <= 3; k++ {
+		pk := fmt.Sprintf("mid%d", k)
+		an := fmt.Sprintf("%s.AN%d", pk, k)
+		a := fmt.Sprintf("%s.A%d", pk, k)
+		for _, imp := range []bool{false, true} {
+			for _, use := range []bool{false, true} {
+				suffix := fmt.Sprint(k)
+				imps, tail := pk, ""
+				if imp {
+					suffix += "_imp"
+					imps += " lib"
+					tail = "; _ = lib.C"
+				}
+				opt := func(s string) string {
+					if use {
+						return s
+					}
+					return ""
+				}
+				if use {
+					suffix += "_use"
+				}
+				out = append(out,
+					c8Client{"ac_n_conv" + suffix, imps, "", "x := " + an + "(1); _ = x" + opt("; _ = x.NM()") + tail},
+					c8Client{"ac_t_lit" + suffix, imps, "", "t := " + a + "{}; _ = t" + opt("; _ = t.N") + tail},
+					c8Client{"ac_t_conv" + suffix, imps, "", "var t " + a + "; _ = " + a + "(t)" + opt("; _ = t.VM(1)") + tail},
+				)
+			}
+		}
+	}
+	out = append(out,
+		c8Client{"ac_paren2", "mid2", "", "_ = (mid2.AN2)(1); _ = ((mid2.A2))(mid2.A2{})"},
+		c8Client{"ac_assign2", "mid2", "", "var x mid2.AN2; x = mid2.AN2(x); _ = x"},
+		c8Client{"ac_assign3", "mid3", "", "var x mid3.AN3; x = mid3.AN3(x); _ = x"},
+		c8Client{"ac_var3", "mid3", "", "var x mid3.A3; _ = x; var p *mid3.A3; _ = p"},
+		c8Client{"ac_dot2", ".=mid2", "", "_ = AN2(1); _ = A2{}"},
+		c8Client{"ac_iface2", "mid2", "", "var i mid2.AI2; _ = i; _ = mid2.AI2(nil)"},
+		c8Client{"ac_iface2_use", "mid2", "", "var i mid2.AI2; _ = i.IM(1)"},
+		c8Client{"ac_iface3", "mid3", "", "var i mid3.AI3; _ = i"},
+		c8Client{"ac_ptr2", "mid2", "", "var p mid2.AP2; _ = p; _ = mid2.AP2(nil); var q mid2.PA2; _ = q"},
+		c8Client{"ac_slice2", "mid2", "", "_ = mid2.AS2(nil); _ = mid2.AS2{1}"},
+		c8Client{"ac_generic", "mid mid2", "", "_ = mid.GA[int]{}; var g mid2.GA2[int]; _ = g; _ = mid2.GAi2{}"},
+		c8Client{"ac_generic_use", "mid2", "", "g := &mid2.GA2[int]{}; _ = g.Get()"},
+		c8Client{"ac_local", "mid", "type L1 = mid.AN\ntype L2 = L1", "_ = L2(1); _ = L1(2)"},
+		c8Client{"ac_embed2", "mid2", "", "var e mid2.E2; _ = e"},
+		c8Client{"ac_embed2_use", "mid2", "", "var e mid2.E2; _ = e.VM(1)"},
+		c8Client{"ac_ret2", "mid2", "", "x := mid2.NewN(); _ = x"},
+		c8Client{"fv_reexport", "mid", "", "_ = mid.FV2(1); _ = (mid.FV2)(2)"},
+		c8Client{"std_alias2", "stdmid2", "", "var xs []string; xs = stdmid2.SS2(xs); _ = xs"},
+	)
+	return out
+}
 
 // c8Client is one analysed package of the generated module: the imports, optional package-level
 // declarations, and the statements of `func run(s []int, a, b int)`.
@@ -229,7 +335,7 @@ func c8ClientSource(c c8Client, modpath string) string {
 			name, path = "", im
 		}
 		switch path {
-		case "lib", "mid", "stdmid":
+		case "lib", "mid", "mid2", "mid3", "stdmid", "stdmid2":
 			path = modpath + "/" + path
 		}
 		if name != "" {
@@ -458,8 +564,13 @@ func c8LoadWorld() ([]*c8Pkg, error) {
 	if err := add("stdmid", c8StdMid, true); err != nil {
 		return nil, err
 	}
+	for _, m := range [][2]string{{"mid2", c8Mid2Src}, {"mid3", c8Mid3Src}, {"stdmid2", c8StdMid2Src}} {
+		if err := add(m[0], m[1], true); err != nil {
+			return nil, err
+		}
+	}
 	c8WorldTimings += fmt.Sprintf(" lib+mid+stdmid(std from source)=%.1fs", time.Since(t0).Seconds())
-	for _, list := range [][]c8Client{c8Clients, c8StdClients} {
+	for _, list := range [][]c8Client{c8Clients, c8StdClients, c8AliasChainClients()} {
 		for _, c := range list {
 			if err := add(c.name, c8ClientSource(c, c8Mod), true); err != nil {
 				return nil, err
